@@ -185,6 +185,10 @@ func (c *Converter) ExpandUpdateKeysAsLeaf(ctx context.Context, upd *sdcpb.Updat
 
 func (c *Converter) ExpandContainerValue(ctx context.Context, p *sdcpb.Path, jv any, cs *sdcpb.SchemaElem_Container, includeKeysAsLeaf bool) ([]*sdcpb.Update, error) {
 	log.Debugf("expanding jsonVal %T | %v | %v", jv, jv, p)
+	// an update that comes without a path (the message is absent on the wire) addresses the root
+	if p == nil {
+		p = &sdcpb.Path{}
+	}
 	switch jv := jv.(type) {
 	case string:
 		v := strings.Trim(jv, "\"")
